@@ -110,6 +110,9 @@ def paths_are_equal(F):
         it = c0[0][2]
         while it[0] == "ctor" and len(it[2]) == 1:
             it = it[2][0]
+        # (the by-value copy may be moved into the helper: `Normalise(std::move(copy))` hands over the same value)
+        if it[0] == "call" and len(it[3]) == 1 and it[3][0] == ("call", "std::move", None, (("X",),)):
+            it = (it[0], it[1], it[2], (("X",),))
         if it[0] == "call" and it[3] == (("X",),):
             hs = [h for h in F.by_qn.get(it[1], []) if h.cfg and len(h.params) == 1 and not h.params[0].get("ref")]
             if len(hs) == 1:
